@@ -115,7 +115,8 @@ def gen_metric_case(rng, i):
         entries.append({"name": hx(b"overflow"), "scope": "", "data": big, "forced": True})
         entries.append({"name": hx(b"overflow"), "scope": "", "data": big, "forced": True})
     return {"id": hx(odd_name(rng, 16)), "start": rng.choice([0, 1700000000, 1, 2**31, -5]),
-            "now": rng.choice([1700000060, 0, 2**33]), "max": rng.choice([2000, 2000, 3, 0, 1]), "entries": entries}
+            "now": rng.choice([1700000060, 0, 2**33]), "max": rng.choice([2000, 2000, 3, 0, 1]), "entries": entries,
+            "merge": i % 6 == 5}
 
 
 def rand_unicode(rng, maxlen=10):
@@ -171,7 +172,7 @@ def gen_event_case(rng, i):
     n = [0, 1, 2][(i // 5) % 3] if i < 15 else rng.randint(0, 10)
     events = [{"data": hx(gen_fragment(rng)), "prio": round(rng.random() * 2, 6)} for _ in range(n)]
     c = {"kind": kind, "cap": cap, "id": hx(odd_name(rng, 16)), "events": events,
-         "split": kind != "log" and rng.random() < 0.3, "labels": []}
+         "split": kind != "log" and rng.random() < 0.3, "merge": kind != "log" and rng.random() < 0.25, "labels": []}
     if kind == "log":
         for _ in range(rng.randint(0, 3)):
             c["labels"].append([hx(rng.choice([b"", b"env", odd_name(rng, 8)])), hx(rng.choice([b"", b"prod", odd_name(rng, 8)]))])
@@ -619,10 +620,6 @@ def run(chk, replay=None):
     for h, o in scases:
         b = bytes.fromhex(h)
         chk.count_case(["s", h], nontrivial=needs_escape(b))
-    if jx["all2"]:
-        chk.cov["evaluations"] += len(jx["all2"])
-        chk.cov["distinct_nontrivial"] += sum(1 for v in range(65536) if needs_escape(bytes([v >> 8, v & 255])))
-        chk.cov["exhaustive_two_byte"] = True
     for key in ("floats", "metrics", "pkgs", "connects", "others"):
         for c, o in zip(inp[key], obs[key]):
             nontriv = True
@@ -635,6 +632,11 @@ def run(chk, replay=None):
             chk.count_case([key, c], nontrivial=nontriv)
     for c, os_ in zip(inp["events"], obs["events"]):
         chk.count_case(["events", c], nontrivial=len(c["events"]) > 0 and c["cap"] > 0)
+    if jx["all2"]:
+        # the exhaustive two-byte sweep is counted after the hashed cases (count_case recomputes the distinct total)
+        chk.cov["evaluations"] += len(jx["all2"])
+        chk.cov["distinct_nontrivial"] += sum(1 for v in range(65536) if needs_escape(bytes([v >> 8, v & 255])))
+        chk.cov["exhaustive_two_byte"] = True
     sizes = [len(o["out"]) // 2 for o in obs["metrics"] if o.get("out")]
     sizes += [len(o["out"]) // 2 for os_ in obs["events"] for o in os_ if o.get("out")]
     chk.cov["rule"] = ("AppendString: all 256 one-byte strings, crafted strings <= 64 bytes (every control, quotes, backslashes, "
@@ -649,6 +651,8 @@ def run(chk, replay=None):
         "strings": len(scases), "all_two_byte": len(jx["all2"]), "float_arrays": len(inp["floats"]),
         "metric_tables": len(inp["metrics"]), "metric_tables_with_nonfinite": sum(1 for o in obs["metrics"] if o["out"] is None),
         "event_payloads": sum(len(x) for x in obs["events"]), "event_cases_split": sum(1 for c in inp["events"] if c["split"]),
+        "event_cases_carried_over": sum(1 for c in inp["events"] if c.get("merge")),
+        "metric_tables_carried_over": sum(1 for c in inp["metrics"] if c.get("merge")),
         "log_payloads": sum(1 for c in inp["events"] if c["kind"] == "log"),
         "pkg_cases": len(inp["pkgs"]), "pkg_not_sent": sum(1 for o in obs["pkgs"] if o["out"] is None),
         "connect_cases": len(inp["connects"]), "connect_encoder_errors": sum(1 for o in obs["connects"] if o["out"] is None),
@@ -661,7 +665,7 @@ def run(chk, replay=None):
         h, o = scases[min(len(scases) - 1, 300)]
         chk.sample({"AppendString_input_hex": h, "output_hex": o["out"]})
     if obs["metrics"]:
-        o = next((x for x in obs["metrics"] if x.get("out")), obs["metrics"][0])
+        o = next((x for x in obs["metrics"] if x.get("out") and len(x["entries"] or []) == 1), obs["metrics"][0])
         chk.sample({"metric_body": None if not o.get("out") else bytes.fromhex(o["out"]).decode("latin-1")[:300]})
     if obs["pkgs"]:
         o = next((x for x in obs["pkgs"] if x.get("out")), obs["pkgs"][0])
